@@ -30,7 +30,7 @@ for pf in sorted(glob.glob(sd+"/r*.patch")):
         if any(os.path.dirname(a) in dirs for a in p['anchors']['files']): todo.add(p['id'])
     res=[]
     for q in sorted(todo):
-        r=sh(f"/verif/.build/bngvet -prop {q} -repo {SCR} -verif {VT}")
+        r=sh(f"{os.environ.get('BIN','/verif/.build/bngvet')} -prop {q} -repo {SCR} -verif {VT}")
         last=[l for l in r.stdout.splitlines() if ' quick: ' in l]
         keys=[l.strip()[4:].strip()[:150] for l in r.stdout.splitlines() if l.startswith("  key ")]
         fail=[l for l in r.stdout.splitlines() if l.startswith("ANALYSIS-FAILURE")]
